@@ -143,7 +143,9 @@ def check_intervals(run, db):
     roles = {0: 'ptr'}
     for f in db.find(cls_t='memory_block', short='contains') + db.find(cls_t='detail::memory_block_stack', short='owns'):
         n += 1
-        S = fwd.summarize(f, roles=roles)
+        # memory_block_stack::owns may ask memory_block::contains for each block: seen through (contains itself is decided above)
+        S = fwd.summarize(f, roles=roles, db=db, no_forward=True,
+                          inline_pred=lambda a, c, t: c.short == 'contains' and cls_template(c.cls or '') == 'memory_block' and c.key != a.key)
         facts = []          # (linear form d, op) with `d op 0` holding where the function answers true
         for s in S:
             if s.end != 'return':
